@@ -144,7 +144,11 @@ func props() []engine.AnyProp {
 	for _, ind := range reg.All() {
 		ps = append(ps, prop(ind))
 	}
-	return append(ps, intProps()...)
+	ps = append(ps, intProps()...)
+	for _, e := range f32Entries {
+		ps = append(ps, f32Prop(e))
+	}
+	return ps
 }
 
 func TestC01(t *testing.T) { engine.RunAll(t, props(), false) }
